@@ -282,7 +282,17 @@ _W12_GUARDS = {
     "C09": {"fresh-codes-redeemed-with-verifier-anomalies": 300},
     "C15": {"actor-token-without-its-type": 300},
 }
-for _gs in (_W9_GUARDS, _W10_GUARDS, _W11_GUARDS, _W12_GUARDS):
+# ... and with the thirteenth wave (least examined clause; DESIGN.md 12.20)
+_W13_GUARDS = {
+    "C02": {"expired-forgeries-presented": 100},
+    "C06": {"jwt-access-tokens-for-requests-with-an-empty-audience-list": 200, "storages-that-leave-jwt-expiry-to-the-library": 100},
+    "C08": {"storages-that-leave-jwt-expiry-to-the-library": 100},
+    "C14": {"assertion-next-to-the-form's-client-at-that-client's-token": 100},
+    "C15": {"exchanges-that-issued-an-id-token": 50, "id-token-exchanges-with-an-empty-scope-list": 15},
+    "C17": {"callbacks-delivered-by-post": 2000},
+    "C19": {"request-objects-that-alone-carry-the-redirect-uri": 100},
+}
+for _gs in (_W9_GUARDS, _W10_GUARDS, _W11_GUARDS, _W12_GUARDS, _W13_GUARDS):
     for _p, _g in _gs.items():
         PROPS[_p]["min_probes"]["quick"].update(_g)
 
@@ -307,5 +317,10 @@ _RULE_ADDENDA = {
     "C19": " Since the fourth session: endpoints switched off on the LegacyServer (nil entries); providers built with NewOpenIDProvider / NewDynamicOpenIDProvider / NewForwardedOpenIDProvider.",
     "C20": " Since the fourth session: sibling client-side instances with their own credentials; client side of the device grant; providers for several issuers from one shared configuration value (compared after every step).",
 }
+_RULE_ADDENDA["C02"] += " Time passes beyond the ID token's lifetime at the end: expired hints that were never validly signed."
+_RULE_ADDENDA["C03"] = " Since the fourth session: unknown clients reported with the storage's own OAuth error; OAuth-error fault kinds at /authorize; providers built with the public constructors; authentication requests by POST."
+_RULE_ADDENDA["C06"] += " Storages that leave the expiry of JWT access tokens to the library; client-credentials requests with an empty, non-nil audience list."
+_RULE_ADDENDA["C08"] += " Storages that leave the expiry of JWT access tokens to the library."
+_RULE_ADDENDA["C17"] += " Callbacks delivered by POST."
 for _p, _t in _RULE_ADDENDA.items():
     PROPS[_p]["rule"] = PROPS[_p]["rule"] + _t
